@@ -120,6 +120,9 @@ func estimateScalar(est st.ScalarEstimator, x, gamma ad.ConstVector, p tp.Thread
 	var o outcome
 	var err error
 	if pv, site := core.Try(func() { err = est.EstimateOnData(x, gamma, p) }); pv != nil {
+		if _, ok := pv.(tp.Abort); ok {
+			panic(pv)
+		}
 		o.err = fmt.Sprintf("panic in %s: %v", site, pv)
 		return o
 	}
